@@ -1358,13 +1358,16 @@ class LangServer:
         filepath = path_from_uri(uri)
         # Skip update and remove objects if file is deleted
         if did_close and (not os.path.isfile(filepath)):
-            # Remove old objects from tree
-            file_obj = self.workspace.get(filepath)
+            # Remove the file and its objects; links into it must not survive
+            file_obj = self.workspace.pop(filepath, None)
             if file_obj is not None:
                 ast_old = file_obj.ast
                 if ast_old is not None:
                     for key in ast_old.global_dict:
                         self.obj_tree.pop(key, None)
+                self.link_version = (self.link_version + 1) % 1000
+                for _, other_obj in self.workspace.items():
+                    other_obj.ast.resolve_links(self.obj_tree, self.link_version)
             return
         did_change, err_str = self.update_workspace_file(
             filepath, read_file=True, allow_empty=did_open
